@@ -24,6 +24,7 @@
 #include <sys/socket.h>
 #include <unistd.h>
 #include <atomic>
+#include <csignal>
 #include <filesystem>
 #include <set>
 #include <thread>
@@ -106,6 +107,44 @@ static Config base_cfg(std::uint32_t seed) {
     return c;
 }
 
+static Node* g_a = nullptr;
+static std::mutex* g_node_mutex = nullptr;
+static void dump_tuples(int crashed_signal) {
+#ifndef VERIF_TSAN
+    Node* a = g_a;
+    std::map<void*, std::string> names;
+    names[static_cast<void*>(g_node_mutex->native_handle())] = "node_mutex";
+    names[static_cast<void*>(Acc::mtx(*a).native_handle())] = "scheduler_mutex";
+    std::map<const void*, int> objs;
+    int nl = 0;
+    { ev::Ev e("reset"); e.i("probes", g_nprobes.load()).i("tuples", static_cast<long long>(g_tuples.size())).i("threads", g_next_tid.load()).i("crashed", crashed_signal); e.emit(); }
+    // only the daemon's own objects (members of Node A) are analysed; peers' nodes are load generators
+    const char* lo = reinterpret_cast<const char*>(a); const char* hi = lo + sizeof(Node);
+    std::set<std::string> site_names;
+    for (auto& t : g_tuples) if (reinterpret_cast<const char*>(t.obj) >= lo && reinterpret_cast<const char*>(t.obj) < hi) site_names.insert(t.site);
+    std::map<std::string, int> sid; for (auto& n : site_names) sid[n] = static_cast<int>(sid.size()) + 1;
+    for (auto& t : g_tuples) {
+        if (reinterpret_cast<const char*>(t.obj) < lo || reinterpret_cast<const char*>(t.obj) >= hi) continue;
+        if (!objs.count(t.obj)) objs[t.obj] = static_cast<int>(objs.size());
+        std::vector<std::string> ls;
+        for (auto* l : t.locks) { if (!names.count(l)) names[l] = "L" + std::to_string(++nl); ls.push_back(ev::jstr(names[l])); }
+        std::sort(ls.begin(), ls.end());
+        ev::Ev e("access"); e.i("obj", objs[t.obj]).s("group", t.group).s("site", t.site).i("sid", sid[t.site]).b("w", t.write).i("tid", t.tid).raw("locks", ev::jlist(ls)); e.emit();
+    }
+#else
+    { ev::Ev e("reset"); e.i("probes", 0).i("crashed", crashed_signal); e.emit(); }
+#endif
+    std::fflush(ev::out());
+}
+static void on_crash(int sig) {
+    // the scenario itself fell over (a manifestation of the races it provokes): keep what was observed
+    static std::atomic<bool> once{false};
+    if (once.exchange(true)) _exit(4);
+    g_armed.store(false);
+    dump_tuples(sig);
+    _exit(4);
+}
+
 int main(int argc, char** argv) {
     if (argc < 3) return 2;
     const long iters = argc > 3 ? std::atol(argv[3]) : 60;
@@ -119,12 +158,14 @@ int main(int argc, char** argv) {
     auto a = std::make_unique<Node>(pid(0), base_cfg(0x1000));
     std::mutex node_mutex;
     std::atomic<bool> run{true};
+    g_a = a.get(); g_node_mutex = &node_mutex;
+    std::signal(SIGSEGV, on_crash); std::signal(SIGABRT, on_crash); std::signal(SIGBUS, on_crash);
     daemon::ControlServer server(*a, node_mutex, [] {});
     std::uint16_t cport = 0;
     for (int i = 0; i < 20; ++i) { cport = free_port(); try { server.start("127.0.0.1", cport); break; } catch (const std::exception&) {} }
+    g_armed.store(true);   // armed before start_transport: the listener accepts while refresh_advertised_endpoints still runs
     { std::scoped_lock lk(node_mutex); a->start_transport(0); }
     const auto tport = a->transport_port();
-    g_armed.store(true);
 
     // serve loop: node_mutex around tick(); virtual time moves 1 s per tick so that cleanup and key rotation run
     std::thread ticker([&] {
@@ -138,6 +179,7 @@ int main(int argc, char** argv) {
             for (long it = 0; it < iters && run.load(); ++it) {
                 // a fresh peer identity every few iterations: new contexts_/handshake_state_ entries on A
                 Node b(pid(10 + k * 1000 + it / 4), base_cfg(0x2000u + k * 77 + static_cast<std::uint32_t>(it / 4)));
+                b.start_transport(0);   // so that ~Node tears the outbound session down (stop() is a no-op otherwise)
                 auto w = Acc::work(*a, b.id());
                 if (!b.perform_handshake(a->id(), a->public_identity(), w.value_or(0))) continue;
                 if (!b.connect_peer(a->id(), "127.0.0.1", tport)) continue;
@@ -186,24 +228,7 @@ int main(int argc, char** argv) {
     server.stop();
     { std::scoped_lock lk(node_mutex); a->stop_transport(); }
 
-#ifndef VERIF_TSAN
-    // name the locks: node_mutex and A's scheduler mutex are known; others by first appearance
-    std::map<void*, std::string> names;
-    names[static_cast<void*>(node_mutex.native_handle())] = "node_mutex";
-    names[static_cast<void*>(Acc::mtx(*a).native_handle())] = "scheduler_mutex";
-    std::map<const void*, int> objs;
-    int nl = 0;
-    { ev::Ev e("reset"); e.i("probes", g_nprobes.load()).i("tuples", static_cast<long long>(g_tuples.size())).i("threads", g_next_tid.load()); e.emit(); }
-    for (auto& t : g_tuples) {
-        if (!objs.count(t.obj)) objs[t.obj] = static_cast<int>(objs.size());
-        std::vector<std::string> ls;
-        for (auto* l : t.locks) { if (!names.count(l)) names[l] = "L" + std::to_string(++nl); ls.push_back(ev::jstr(names[l])); }
-        std::sort(ls.begin(), ls.end());
-        ev::Ev e("access"); e.i("obj", objs[t.obj]).s("group", t.group).s("site", t.site).b("w", t.write).i("tid", t.tid).raw("locks", ev::jlist(ls)); e.emit();
-    }
-#else
-    { ev::Ev e("reset"); e.i("probes", 0); e.emit(); }
-#endif
+    dump_tuples(0);
     std::fflush(ev::out());
     a.reset();
     _exit(0);
